@@ -40,11 +40,16 @@ class Game:
             return True
         return all(dfs(s) for s in range(self.n) if s not in color)
 
-    def description(self, sp, prefix="r"):
-        """fresh description dict; SYM slots become solver variables in {0} u [1/8, 4]"""
+    def description(self, sp, prefix="r", nsym=99, fill=1):
+        """fresh description dict; the first nsym SYM slots become solver variables in {0} u [1/8, 4],
+        the remaining ones the constant `fill`"""
         rew = []
+        k = 0
         for i, r in enumerate(self.rewards):
-            if r == SYM:
+            if r == SYM and k >= nsym:
+                rew.append(fill)
+            elif r == SYM:
+                k += 1
                 x = sp.real("%s%d" % (prefix, i), 0, 4)
                 if sp.mode != "native":
                     sp.add(z3.Or(x.t == 0, x.t >= rat(Fraction(1, 8))))
